@@ -187,6 +187,14 @@ class Ctx(object):
                 return False
             raise
 
+    def _quiet(self, fn, case):
+        """Run fn without counting (used while minimising)."""
+        saved = (self.evaluations, set(self.digests), self.distinct_extra, Counter(self.hist), list(self.samples))
+        try:
+            return fn(case)
+        finally:
+            self.evaluations, self.digests, self.distinct_extra, self.hist, self.samples = saved
+
     def record(self, vio):
         size = len(jdump(vio.case))
         old = self.violations.get(vio.kind)
@@ -209,7 +217,32 @@ class Ctx(object):
                 self.record(vio)
         return complete
 
-    def hyp(self, strategy, fn, max_examples, shrink=True, rounds=6):
+    def minimize(self, vio, fn, smaller, budget=80):
+        """Greedy reduction for expensive cases (subprocess runs): smaller(case) yields candidate cases; a
+        candidate is kept when it fails with the same kind."""
+        case = vio.case
+        tries = 0
+        progress = True
+        while progress and tries < budget:
+            progress = False
+            for cand in smaller(case):
+                tries += 1
+                if tries > budget:
+                    break
+                try:
+                    fn(cand)
+                except Violation as again:
+                    if again.kind == vio.kind:
+                        case = cand
+                        vio.detail = again.detail
+                        progress = True
+                        break
+                except Exception:
+                    continue
+        vio.case = case
+        return vio
+
+    def hyp(self, strategy, fn, max_examples, shrink=True, rounds=6, smaller=None):
         """Hypothesis-driven search with collect-then-continue: after a shrunk failure of kind K the
         search is re-run with K excluded (counted), to enumerate further root causes."""
         from hypothesis import given, settings, seed, HealthCheck, Phase, Verbosity
@@ -233,7 +266,11 @@ class Ctx(object):
                 test()
                 return
             except Violation as vio:
-                self.record(last.get("v", vio))
+                vio = last.get("v", vio)
+                if smaller is not None:
+                    known_before = set(self.seen)
+                    vio = self.minimize(vio, lambda c: self._quiet(fn, c), smaller)
+                self.record(vio)
         self.notes.append("more than %d distinct violation kinds; search stopped" % rounds)
 
     def export(self):
